@@ -177,7 +177,7 @@ func init() {
 			for _, rp := range []bool{false, true} {
 				envNo++
 				cfg := proxyCfg{Whitelist: wl, ReverseProxy: rp, Htpasswd: map[string]string{"bob": "pw"}, EncodeState: (wi+envNo)%2 == 0, EmailDomains: []string{"example.com"}}
-				cfg.RelativeRedirectURL = envNo%4 == 1 // (the OAuth redirect URI as a path: says nothing about where a LOGIN may land)
+				cfg.RelativeRedirectURL = envNo%4 == 1 || (wi == len(rdWhitelists)-1 && rp) // (the OAuth redirect URI as a path: says nothing about where a LOGIN may land)
 				if envNo%3 == 0 {
 					// other domain-valued options are not redirect permissions: cookies for a parent domain, e-mail domains
 					cfg.CookieDomains = []string{".evil.com", "evilgood.com"}
